@@ -284,6 +284,7 @@ func (m *pqMachine) step(x *hx, o op) {
 		if x.ok() && len(res) != want {
 			x.failOp("wrong-count", "PopUntil(%d) returned %d elements, the model has %d with priority up to and including the bound", o.arg(0), len(res), want)
 		}
+		holdSlice(x, "PopUntil", res, heldGarbage)
 	case "PopAll":
 		n := len(m.inside)
 		res := m.real.popAll()
@@ -291,6 +292,7 @@ func (m *pqMachine) step(x *hx, o op) {
 		if x.ok() && len(res) != n {
 			x.failOp("wrong-count", "PopAll() returned %d elements, model size %d", len(res), n)
 		}
+		holdSlice(x, "PopAll", res, heldGarbage)
 	}
 	if !x.ok() {
 		return
